@@ -27,7 +27,7 @@ SCHEMA = "schema_c16"
 # canonical names of root causes (matched on the panic message / the death message + the feature configuration)
 CANON = [
     (lambda o, cfg: "Expected valid integer" in (o.get("panic_msg") or ""), "C08:integer-literal-beyond-i64-panics"),
-    (lambda o, cfg: o["outcome"] == "abort" and "overflowed its stack" in (o.get("stderr") or "") and cfg in ("cycles", "walk", "c16"),
+    (lambda o, cfg: o["outcome"] == "abort" and "overflowed its stack" in (o.get("stderr") or "") and cfg in ("cycles", "cycles3", "cyclesP", "walk", "c16"),
      "C08:mutually-recursive-client-fields-stack-overflow"),
     (lambda o, cfg: "attempt to add with overflow" in (o.get("panic_msg") or ""), "C08:variable-of-recursive-input-object-type-panics"),
     (lambda o, cfg: "Parent context has missing variable" in (o.get("panic_msg") or ""),
@@ -132,8 +132,10 @@ def mutate_demo(proj: dict, lits, edits, ident) -> dict:
 
 
 def gen_configs(chk, quick: bool):
-    base = {"MaxChoice": 1 if quick else 2, "SoupLen": 1 if quick else 2, "SoupLong": {1, 2, 4}, "CycleNodes": 2, "CycleModes": {0, 1, 2}}
+    base = {"MaxChoice": 1 if quick else 2, "SoupLen": 1 if quick else 2, "SoupLong": {1, 2, 4}, "CycleNodes": 2, "CycleModes": {0, 1, 2}, "CyclePtr": False}
     runs = [(c, dict(base, Config=c)) for c in ("args", "abstract", "directives", "cycles", "decls", "soup")]
+    # node 2 as a client pointer: two nodes in quick (81 x 3 programs with modes 0..2 -> use modes 0..1: 16 x 3), three in thorough
+    runs.append(("cyclesP", dict(base, Config="cycles", CycleNodes=2 if quick else 3, CycleModes={0, 1}, CyclePtr=True)))
     if not quick:
         runs.append(("cycles3", dict(base, Config="cycles", CycleNodes=3, CycleModes={0, 1})))
 
